@@ -11,7 +11,7 @@ from mc import g_fullnet as gf, g_io, g_poison as gp
 PROPERTY = "C20"
 LEVEL = "exploration"
 META = {
-    "text": "A network in which every element table is non-empty and which carries std types, two controllers (one with a DFData source), two groups, two characteristics, user_pf_options and geodata is saved and loaded through every public format (to_json string / file / file object / encrypted, to_pickle file / file object, to_excel, to_sqlite) after one or two slots were overwritten with a value from a finite alphabet (numeric-looking / empty / NA-like / unicode / long strings, NaN, +-inf, -0.0, subnormal, 1e308, 0.1+0.2, 1/3, 0, -1, 2**53+1, bools, None, nullable and narrow custom dtypes, date-named custom columns, gapped / permuted / named indices, result tables present).  The loaded net is walked against the original: tables, index labels / order / dtype / name, columns, dtypes, every cell (type and value, floats within 1e-14 for text formats, exact for pickle), std types, controller / characteristic objects attribute by attribute, groups, options, scalar attributes, and the results of runpp on both.  For Excel / SQLite only element-table cells that the storage format can hold are judged.",
+    "text": "A network in which every element table is non-empty and which carries std types, two controllers (one with a DFData source), two groups, two characteristics, user_pf_options and geodata is saved and loaded through every public format (to_json string / file / file object / encrypted, to_pickle file / file object, to_excel, to_sqlite) and through save/load sequences (sort_keys, indent=None, save -> partial load with elements_to_deserialize -> save -> load, two generations, json <-> pickle) after one or two slots were overwritten with a value from a finite alphabet (numeric-looking / empty / NA-like / unicode / long strings, NaN, +-inf, -0.0, subnormal, 1e308, 0.1+0.2, 1/3, 0, -1, 2**53+1, bools, None, nullable and narrow custom dtypes, date-named custom columns, gapped / permuted / named indices, result tables present).  The loaded net is walked against the original: tables, index labels / order / dtype / name, columns, dtypes, every cell (type and value, floats within 1e-14 for text formats, exact for pickle), std types, controller / characteristic objects attribute by attribute, groups, options, scalar attributes, and the results of runpp on both.  For Excel / SQLite only element-table cells that the storage format can hold are judged.",
     "note": "Trusted: mc/g_netcmp.py (the walker) and the representability predicate for xlsx / SQLite cells in mc/g_io.py.  Not demanded (statement grants it): sign of zero, None vs NaN as the missing marker of object columns, RangeIndex vs Int64 index class, list vs tuple; for Excel / SQLite also the name of an index, per-cell python types of mixed object columns, and values the cell store cannot hold (inf, |int| > 2**53 and the empty string in xlsx, list cells).  Tiny / huge floats whose only effect on runpp is to amplify the permitted 1e-14 (max_i_ka = 3e-11 kA, an angle of 1e16 degrees) are placed in columns that do not enter the power flow.  The out-of-service DC-grid specimens are saved and compared but removed from both nets before runpp (the power flow of this tree cannot number out-of-service DC buses).  Values outside the alphabet, geopandas frames and PostgreSQL are not covered.",
     "technique": "bounded exhaustive input enumeration (every 1- and 2-subset of a slot x value menu, times every format) with a structural round-trip oracle on the real I/O functions",
     "design_ref": "DESIGN.md §3 E1, §4 C20",
@@ -65,13 +65,13 @@ def _missing(x):
 def _x_json_inf(case, d, fmt):
     """pandas.DataFrame.to_json writes +-inf as null: every infinite float inside a DataFrame (tables, the DFData frame of a
     controller, lists in object cells) comes back as the missing value"""
-    return fmt.startswith("json") and d["clause"] in ("value", "controller") and _is_inf(d.get("_a")) and _missing(d.get("_b"))
+    return ("json" in fmt) and d["clause"] in ("value", "controller") and _is_inf(d.get("_a")) and _missing(d.get("_b"))
 
 
 def _x_json_range(case, d, fmt):
     """DataFrame.to_json(double_precision=15) prints 15 significant digits; read_json(precise_float=True) rejects the text when
     strtod reports ERANGE: the rounded literal overflows (1.79769313486232e308) or is subnormal"""
-    if not (fmt.startswith("json") and d["clause"] == "roundtrip_raises" and d.get("a") in ("ValueError", "UserWarning")
+    if not (("json" in fmt) and d["clause"] == "roundtrip_raises" and d.get("a") in ("ValueError", "UserWarning")
             and "Range error" in d.get("b", "")):     # from_json() re-raises the ValueError as UserWarning
         return False
     for dev in case["devs"]:
@@ -102,12 +102,12 @@ def _x_int64na(case, d, fmt):
 def _x_date_named(case, d, fmt):
     """pandas.read_json(convert_dates=True) converts columns whose LABEL looks like a date ('date', 'timestamp', '*_at', ...)"""
     col = d["where"].split(".")[1].split("[")[0] if "." in d["where"] else ""
-    return fmt.startswith("json") and col in ("date", "timestamp") and d["clause"] in ("cell_type", "dtype", "value")
+    return ("json" in fmt) and col in ("date", "timestamp") and d["clause"] in ("cell_type", "dtype", "value")
 
 
 def _x_name_module(case, d, fmt):
     """json_pandapowernet() json.loads()es every string attribute of the net that contains '_module'"""
-    return (fmt.startswith("json") and d["clause"] == "roundtrip_raises" and d.get("a") == "JSONDecodeError"
+    return (("json" in fmt) and d["clause"] == "roundtrip_raises" and d.get("a") == "JSONDecodeError"
             and any(dev[0] == "attr" and isinstance(gp.val(dev[2]), str) and "_module" in gp.val(dev[2]) for dev in case["devs"]))
 
 
@@ -148,7 +148,13 @@ def _x_sqlite_named_index(case, d, fmt):
         and any(dev[0] == "index" and dev[2] == "named" for dev in case["devs"])
 
 
-EXPLAIN = {"excel_text_inferred": _x_excel_text_inferred, "sqlite_named_index": _x_sqlite_named_index,
+def _x_partial_drop(case, d, fmt):
+    """from_json_string(elements_to_deserialize=..., keep_serialized_elements=False) replaces every other serialized table by
+    the table of an EMPTY net: KeyError for tables an empty net does not have (characteristic, custom tables)"""
+    return fmt == "json_partial_drop" and d["clause"] == "roundtrip_raises" and d.get("a") == "KeyError" and "characteristic" in d.get("b", "")
+
+
+EXPLAIN = {"partial_drop_extra_table": _x_partial_drop, "excel_text_inferred": _x_excel_text_inferred, "sqlite_named_index": _x_sqlite_named_index,
            "json_inf_as_null": _x_json_inf, "json_double_range": _x_json_range, "int64na_via_float": _x_int64na,
            "json_date_named_column": _x_date_named, "json_name_module": _x_name_module,
            "pickle_index_name_dropped": _x_pickle_index_name, "excel_na_strings": _x_excel_na_strings,
@@ -156,7 +162,7 @@ EXPLAIN = {"excel_text_inferred": _x_excel_text_inferred, "sqlite_named_index": 
 
 
 def _tokens(case, diff, fmt):
-    toks = ["fmt=" + fmt, "family=" + ("json" if fmt.startswith("json") else "pickle" if fmt.startswith("pickle") else fmt)]
+    toks = ["fmt=" + fmt, "family=" + ("json" if "json" in fmt else "pickle" if fmt.startswith("pickle") else fmt)]
     w = diff.get("where", "")
     toks.append("table=" + w.split(".")[0].split("[")[0])
     for d in case["devs"]:
@@ -216,6 +222,8 @@ def run_case(case):
         out["violations"].append(_viol(case, d, fmt))
     if fmt in XS_FORMATS:
         c = g_io.compare_elements(orig, loaded, fmt)
+    elif fmt == "json_partial_drop":
+        c = g_io.compare_full(orig, loaded, fmt, only=g_io.PARTIAL)     # the tables that were asked for
     else:
         c = g_io.compare_full(orig, loaded, fmt)
     seen = set()
@@ -228,7 +236,7 @@ def run_case(case):
     out["counts"]["cells_compared"] = c.cells
     out["counts"]["float_cells_beyond_1e-14_relative_but_within_absolute"] = c.rel_only
     # calculation results: judged when the data itself came back (otherwise the difference is already reported above)
-    if not c.diffs:
+    if not c.diffs and fmt != "json_partial_drop":
         pa, pb = g_io.pf_view(orig), g_io.pf_view(loaded)
         oa = g_io.run_pf(pa)
         ob = g_io.run_pf(pb)
@@ -281,8 +289,13 @@ def gen_cases(tier):
     for fmt in XS_FORMATS:
         for d in xs_menu:
             cases.append({"fmt": fmt, "devs": [d]})
+    # save/load sequences and non-default save options: k = 0 and one specimen per mechanism
+    for fmt in g_io.SEQ_FORMATS:
+        cases.append({"fmt": fmt, "devs": []})
+        for d in (gp.SEQ_MENU if quick else core_menu[::3]):
+            cases.append({"fmt": fmt, "devs": [d]})
     # k = 2
-    for pair in gp.pairs(gp.MINI if quick else core_menu[::2]):
+    for pair in gp.pairs(gp.MINI[:20] if quick else core_menu[::2]):
         cases.append({"fmt": "json_str", "devs": pair})
     if not quick:
         for pair in gp.pairs(gp.MINI):
@@ -301,14 +314,14 @@ def explore(tier, seed):
         rep.extra["restricted_by_env_VERIF_K"] = int(kmax)
     rep.rule = ("E1: the full net x format x every subset of <=2 slot/value deviations (k=1: the %s menu on json_str and pickle_file, "
                 "the %s menu on pickle_buf, a transport sub-menu on json_file/json_buf/json_enc, the element-data sub-menu on "
-                "excel/sqlite; k=2: all pairs of the %s menu on json_str (thorough: also of the mini menu on pickle_file); a case is "
+                "excel/sqlite, a specimen menu on the save/load sequences %s; k=2: all pairs of the %s menu on json_str (thorough: also of the mini menu on pickle_file); a case is "
                 "distinct+non-trivial when save and load both returned, keyed by (format, deviation-set hash, power-flow outcome)" % (
-                    "quick" if tier == "quick" else "thorough", "core" if tier == "quick" else "thorough",
+                    "quick" if tier == "quick" else "thorough", "core" if tier == "quick" else "thorough", g_io.SEQ_FORMATS,
                     "mini" if tier == "quick" else "every-second-entry-of-core"))
     rep.extra["bound_k"] = min(2, int(kmax)) if kmax else 2
     rep.extra["menu_k1"] = len(gp.menu("quick" if tier == "quick" else "thorough"))
     rep.extra["menu_pairs"] = len(gp.MINI if tier == "quick" else gp.menu("core")[::2])
-    rep.extra["formats"] = list(g_io.FORMATS)
+    rep.extra["formats"] = list(g_io.FORMATS) + list(g_io.SEQ_FORMATS)
     rep.extra["cases"] = len(cases)
     core.run_cases(rep, run_case, cases)
     rep.assumptions = ["text formats: float cells |a-b| <= 1e-14*max(1,|a|); pickle: exact; results: 1e-9 (text) / exact (pickle)",
